@@ -33,6 +33,7 @@ func runC03(c *Ctx) {
 	// identifiers are the node identifiers, unchanged; identity attributes have a path through both formats
 	verbatimSPDX(c)
 	identityAttributePaths(c)
+	relationshipLabelsDistinct(c)
 }
 
 // placedAttached: C03-D2.
@@ -134,7 +135,9 @@ func placedAttached(c *Ctx) {
 							}
 						}
 						// doc.Metadata.Component = s.nodeToComponent(X) with key == X.Id
-						if strings.HasSuffix(lhs, "Metadata.Component") && strings.HasSuffix(key, ".Id") && strings.Contains(rhs, "("+strings.TrimSuffix(key, ".Id")+")") {
+						// (a direct sibling of the mark: under a further condition — only the first of
+						// several roots — the others are marked without being attached anywhere)
+						if strings.HasSuffix(lhs, "Metadata.Component") && strings.HasSuffix(key, ".Id") && strings.Contains(rhs, "("+strings.TrimSuffix(key, ".Id")+")") && ast.Stmt(a2) == sib {
 							attached = true
 						}
 						return true
@@ -194,9 +197,11 @@ func runC05(c *Ctx) {
 		"sbom.NewNodeIdentifier→uuid.New":                      "only when no usable seed is given; the CycloneDX reader always passes a constant-format counter seed (checked by counter-seed)",
 	})
 	counterRule(c)
+	noGoroutines(c, "drivers-sequential", c.reachDecls("drivers-sequential", entries...), "parser entry points")
 	verbatimIDs(c)
 	rawBytes(c)
 	snifferStreamUses(c)
+	snifferDecodesValues(c)
 	singleDispatch(c)
 	idAlphabet(c)
 	seedTransformsKeepSeeds(c)
@@ -765,4 +770,40 @@ func lookupKeyOf(d *declInfo, e ast.Expr) string {
 		}
 	}
 	return ""
+}
+
+// relationshipLabelsDistinct: C03 — "every relationship the target format can express (all typed
+// relationships for SPDX)". Two different edge types written under the same SPDX label cannot both
+// be in the output: one of them is dropped and a relationship of the other type invented.
+func relationshipLabelsDistinct(c *Ctx) {
+	const R = "relationship-labels-distinct"
+	c.rule(R, "the SPDX writer's Edge_Type→label table (the function the writer calls, folded over every Edge_Type constant) maps no two non-UNKNOWN edge types to the same non-empty label")
+	wr := c.reachDecls(R, spdxSer)
+	edgeT := c.P.namedType(modPath+"/pkg/sbom", "Edge_Type")
+	to := c.uniqueConverter(R, "Edge_Type→string (SPDX writer)", wr, sigPred(isNamed("pkg/sbom", "Edge_Type"), isString))
+	if edgeT == nil || to == nil {
+		return
+	}
+	first := map[string]string{}
+	for _, e := range enumConsts(edgeT) {
+		if isZeroConst(e) {
+			continue
+		}
+		w := c.apply(to, constVal(e))
+		if len(w) == 0 || !w[0].isStr() {
+			c.undecided(R, e.Name(), c.fpos(to), "label not foldable")
+			continue
+		}
+		label := w[0].str()
+		if label == "" {
+			continue
+		}
+		if other, dup := first[label]; dup {
+			c.bad(R, e.Name(), c.fpos(to), fmt.Sprintf("%s and %s are both written as %q: the output cannot tell the two relationship types apart, so one typed relationship is dropped and another invented", other, e.Name(), label))
+			continue
+		}
+		first[label] = e.Name()
+		c.ok(R, e.Name(), c.fpos(to), "label "+label)
+	}
+	c.floor(R, 40, "the relationship types SPDX names")
 }
